@@ -184,7 +184,7 @@ fn t() -> Timestamp {
 /// iss sub aud exp nbf iat jti, under their registered names, each carrying its own value
 #[kani::proof]
 #[kani::unwind(10)]
-fn serialize_emits_exactly_present_claims() {
+pub fn serialize_emits_exactly_present_claims() {
     let pres: [bool; 7] = kani::any();
     let mut c = RegisteredClaims::default();
     if pres[0] {
@@ -372,14 +372,14 @@ macro_rules! map_h {
     ($($name:ident: $n:expr, $k0:expr, $k1:expr, $k2:expr;)*) => {$(
         #[kani::proof]
         #[kani::unwind(10)]
-        fn $name() { map_semantics::<{ $n }, { $k0 }, { $k1 }, { $k2 }, false>(); }
+        pub fn $name() { map_semantics::<{ $n }, { $k0 }, { $k1 }, { $k2 }, false>(); }
     )*};
 }
 macro_rules! map_bytes_h {
     ($($name:ident: $n:expr, $k0:expr, $k1:expr, $k2:expr;)*) => {$(
         #[kani::proof]
         #[kani::unwind(10)]
-        fn $name() { map_semantics::<{ $n }, { $k0 }, { $k1 }, { $k2 }, true>(); }
+        pub fn $name() { map_semantics::<{ $n }, { $k0 }, { $k1 }, { $k2 }, true>(); }
     )*};
 }
 map_bytes_h! {
